@@ -1,5 +1,5 @@
 From Mds Require Import Common.ExtractBase Gen.HeapqIdx Heapq.HeapqModel Heapq.HeapqInst.
 Require Extraction.
 Require Import ExtrOcamlBasic.
-Extraction "heapq_model.ml" HeapqInst.q_step HeapqInst.q_new HeapqInst.q_data HeapqInst.q_sort HeapqInst.kcmp HeapqInst.ccmp
+Extraction "heapq_model.ml" HeapqInst.q_step HeapqInst.q_new HeapqInst.q_data HeapqInst.q_sort HeapqInst.kcmp HeapqInst.ccmp HeapqInst.zset64 HeapqInst.zset_ideal HeapqInst.z_above_bound HeapqInst.z_refused HeapqInst.z_small
   HeapqInst.mk_variant HeapqModel.current_variant HeapqModel.pinned HeapqModel.repaired base_types.
